@@ -444,7 +444,7 @@ func (c *Cluster) exec(a Action) bool {
 		return c.doDeliver(a)
 	case ADrop:
 		return c.doDrop(a)
-	case AHealPhase:
+	case AHealPhase, AVClosePhase:
 		c.healing = true
 		return true
 	case AVElect, AVPropose, AVReplicate, AVCommit, AVCompact, AVSendApp, AVHeartbeat, AVSendSnap:
